@@ -332,10 +332,12 @@ def distributed(ck, sh, mm):
     uninterpreted functions); every subset of loaded wires, both evaluation orders of the two loads."""
     from refmodels import mininec3
     M = sh.mininec
-    geos = ['G2', 'G4'] if ck.tier == 'quick' else ['G2', 'G3', 'G4', 'G9']
+    geos = ['G2', 'G4', 'G9'] if ck.tier == 'quick' else ['G2', 'G3', 'G4', 'G9', 'G16']
     for gname in geos:
         for kind in ('skin-c', 'skin-r', 'ins'):
             for loaded in ((0, 1), (0,), (1,)):
+                if ck.tier == 'quick' and gname == 'G9' and loaded != (0,):
+                    continue          # quick: the grounded wire of G9 only (its sloping top wire is the thorough tier's; half lengths there are decided up to float association)
                 for order in ((0, 1), (1, 0)) if len(loaded) == 2 else ((0,),):
                     _distributed_case(ck, M, mm, mininec3, gname, kind, loaded, order)
 
@@ -386,6 +388,8 @@ def _distributed_case(ck, M, mm, mininec3, gname, kind, loaded, order):
                     w = p.geo[h]
                     if w.n not in lds:
                         continue
+                    if np.asarray(p.ground)[h]:
+                        continue           # the image half of a grounded pulse is no conductor: nothing is dissipated or stored in it
                     half = hv[h]['len'] / 2
                     if kind == 'ins':
                         eps = P['eps'][w.n]
@@ -441,6 +445,8 @@ def _distributed_case(ck, M, mm, mininec3, gname, kind, loaded, order):
                     w = p.geo[h]
                     if w.n not in lds:
                         continue
+                    if np.asarray(p.ground)[h]:
+                        continue           # the image half of a grounded pulse is no conductor: nothing is dissipated or stored in it
                     half = hv[h]['len'] / 2
                     if kind == 'ins':
                         e = P['eps'][w.n]
@@ -466,6 +472,8 @@ def _distributed_case(ck, M, mm, mininec3, gname, kind, loaded, order):
             for h in (0, 1):
                 w = p.geo[h]
                 if w.n not in lds:
+                    continue
+                if np.asarray(p.ground)[h]:
                     continue
                 half = hv[h]['len'] / 2
                 if kind == 'ins':
